@@ -295,6 +295,10 @@ def rootCols (e : Env) (rows : List Int) : List Nat :=
 def visited0 (jcol : Int) (repfnz : Array Int) : List Nat :=
   (List.range jcol.toNat).filter fun s => rd repfnz s ≠ EMPTY
 
+/-- the rows without a pivot column yet (only these can be appended to `lsub`) -/
+def unpivoted (m : Int) (perm_r : Array Int) : List Nat :=
+  (List.range m.toNat).filter fun r => rd perm_r r = EMPTY
+
 /-- for all `0 <= k < n` -/
 def allBelow (n : Int) (p : Nat → Bool) : Bool := (List.range n.toNat).all p
 
@@ -307,7 +311,7 @@ def wfIn (i : Input) : Bool :=
   decide ((i.perm_r.size : Int) = i.m) && decide ((i.marker.size : Int) = 3 * i.m) &&
   decide (i.jcol ≤ i.repfnz.size) && decide (i.jcol ≤ i.parent.size) && decide (i.jcol ≤ i.xplore.size) &&
   decide (0 ≤ i.nseg) && decide (i.nseg + i.jcol ≤ i.segrep.size + (visited0 i.jcol i.repfnz).length) &&
-  decide (0 ≤ nextl0) && decide (nextl0 + i.m ≤ i.lsub.size) &&
+  decide (0 ≤ nextl0) && decide (nextl0 + (unpivoted i.m i.perm_r).length ≤ i.lsub.size) &&
   -- pivot columns of rows: EMPTY or a previous column
   allBelow i.m (fun r => rd i.perm_r r = EMPTY || (0 ≤ rd i.perm_r r && rd i.perm_r r < i.jcol)) &&
   -- no row carries this column's mark yet
